@@ -17,6 +17,8 @@ ASSUMPTIONS = ["joinpath(a, b) == u / (a + '/' + b) is demanded for non-empty a 
 BASES = ["http://h.example", "http://h.example/", "http://h.example/a", "http://h.example/a/", "http://h.example/a/b.txt", "http://h.example/a%2Fb/c%25d/e%20f.tar.gz",
          "http://h.example/a//b", "http://h.example//", "http://u:p@h.example:81/x/.hidden?q=1#f", "//h.example/n/m.", "/", "/a", "/a/b", "/a/", "a", "a/b", "a/", "", "/a%20b.txt",
          "/%C3%A9/%E2%82%AC.x", "mailto:x/y.z", "file:///a/b..c", "/a..b", "/.bashrc", "/a.", "/a/..b.c", "http://h.example/%2E%2E/x",
+         # non-canonical but valid escapes (meaningful with encoded=True)
+         "/%7Euser/r%c3%a9sum%c3%a9.txt", "http://h.example/%41rchive/v1%2e0.tar", "/a%3ab/%2e%2e.x",
          # names that repeat their own suffix text, or whose stem contains it
          "http://h.example/dl/photo.jpg.jpg", "/a.%20b", "http://h.example/%D1%84.%D1%82%D1%85%D1%82", "/q.100%25", "/e.%3Cx%3E", "http://h.example/n.b%2Fc", "/x.%C3%A9%20", "/a.tar.gz.tar", "/my.txtfile.txt", "/v.1.1", "http://h.example/x.x.x", "/a.b/a.b.b", "/.x.x"]
 
@@ -28,13 +30,20 @@ def parts_norm(parts):
     return p
 
 
-def check_laws(ctx, backend, base, s, a, b, n, x, order=0):
+def check_laws(ctx, backend, base, s, a, b, n, x, order=0, enc=False):
     Y = ctx.yarl(backend)
     try:
         u = Y.URL(base)
     except ValueError:
         ctx.case(False, label="skipped:base-rejected")
         return
+    if enc:
+        # the same text taken verbatim (encoded=True): non-canonical escapes of the base must survive name/suffix operations untouched
+        try:
+            u = Y.URL(base, encoded=True)
+        except ValueError:
+            ctx.case(False, label="skipped:base-rejected")
+            return
     if order:
         # a cache-free clone whose accessors are first read in another order (a value planted into the cache by one accessor for another shows)
         import pickle
@@ -106,6 +115,8 @@ def check_laws(ctx, backend, base, s, a, b, n, x, order=0):
             w = None
         if w is not None:
             ctx.check(w.name == n, "with_name(n).name != n", observed=dict(info, n=n, result=str(w), name=w.name), expected=n, entry="with_name")
+            if len(u.raw_parts) > 1:
+                ctx.check(w.raw_parts[:-1] == u.raw_parts[:-1], "with_name() changed another segment", observed=[list(w.raw_parts), list(u.raw_parts)], expected="same leading segments", entry="with_name")
             ctx.check(w.parent == u.parent or (not tail and w.parent == u), "with_name(n).parent != u.parent", observed=dict(info, n=n, result=str(w), parent=str(w.parent), base_parent=str(u.parent)),
                       expected="equal", entry="with_name-parent")
     # 5b. with_name / child with a lone surrogate in the argument: the result must still be self-consistent
@@ -158,9 +169,9 @@ def base_strategy():
 
 def generated(ctx, backend, n):
     txt = gen.text(surrogates=False, max_tokens=4, dots=True)
-    seg = st.one_of(txt.map(gen._strip("/")), st.sampled_from(["x", "y.z", "a b", "%41", "é", "..", ".", "", "a%2Fb"]))
+    seg = st.one_of(txt.map(gen._strip("/")), st.sampled_from(["x", "y.z", "a b", "%41", "é", "..", ".", "", "a%2Fb", "\u0664\u0662", "\uff14\uff12", "\xb2", "42", "\u0967\u0968.txt"]))
     multi = st.one_of(seg, st.lists(seg, min_size=1, max_size=3).map("/".join))
-    ctx.given("laws", {"base": base_strategy(), "s": multi, "a": multi, "b": multi, "n": seg, "x": st.one_of(st.just(""), seg.map(lambda s: s.replace(".", "")), st.sampled_from(["md", "tar.gz", "x y"])), "order": st.integers(0, 3)},
+    ctx.given("laws", {"base": base_strategy(), "s": multi, "a": multi, "b": multi, "n": seg, "x": st.one_of(st.just(""), seg.map(lambda s: s.replace(".", "")), st.sampled_from(["md", "tar.gz", "x y"])), "order": st.integers(0, 3), "enc": st.booleans()},
               max_examples=n, fixed={"backend": backend})
 
 
